@@ -71,18 +71,22 @@ def cluster_body(c):
 
 def cluster_inv(c):
     n = c.n
-    return [('one-machine-per-visited-key', n['machine_list'].n == c.x['visited'].n),
+    ml = n['machine_list']
+    alloc = c.eng.alloc()
+    return [('one-machine-per-visited-key', ml.n == c.x['visited'].n),
+            ('machines-distinct-and-allocated', Q([('m', I)], lambda m: z3.And(ml.count(m) <= 1, z3.Implies(ml.count(m) > 0, z3.And(m > 0, z3.Select(alloc, m)))))),
             ('multiplier-fixed', n['timestep_multiplier'].num == mult(n.self.timestep_unit.t))]
 
 
 REG.contract('Config.parse_cluster_config', world=config_world, params={},
     requires=well_formed_json,
     ensures=lambda c: [('one-machine-per-entry', c.result[0].n == c.o.self.cluster['system']['resources'].nk),
+                       ('machines-distinct', Q([('m', I)], lambda m: z3.And(c.result[0].count(m) <= 1, z3.Implies(c.result[0].count(m) > 0, m > 0)))),
                        ('C16-system-bandwidth-scaled', c.result[1].t == c.o.self.cluster['system']['system_bandwidth'].t * mult(unit(c)))],
     raises={'KeyError': dict(when=None, unchanged=False)},
     modifies=['heap:Machine.id', 'heap:Machine.cpu', 'heap:Machine.memory', 'heap:Machine.disk', 'heap:Machine.bandwidth',
               'heap:Machine.status', 'heap:Machine.transfer_flag', 'heap:Machine.current_task'],
-    props=['C16'])
+    result='tuple:list:Machine,num', props=['C16', 'C02'])
 REG.loop('Config.parse_cluster_config', 0, inv=cluster_inv, body=cluster_body,
          modifies_locals=['machine', 'cpu'],
          modifies=['machine_list', 'ghost:alloc', 'heap:Machine.id', 'heap:Machine.cpu', 'heap:Machine.memory', 'heap:Machine.disk',
